@@ -70,6 +70,10 @@ def gen(tier, rng):
     for m in (b"", b".", b"\r\n.\r\n", b".\r\n", b"\r", b"a\r"):
         for k in "sa":
             cases.append(f"wire\t{k}\t{hexs(m)}")
+    # messages far bigger than the socket buffers to a peer that starts reading late (partial writes must be continued)
+    for mib in ([1, 8] if tier == "quick" else [1, 8, 24, 48]):
+        for k in "sa":
+            cases.append(f"bigwire\t{k}\t{mib}\t300")
     # two messages on one connection (what a pooled transport does): every ending of the first x every beginning of the second
     ends = [b"x", b"x\r", b"x\r\n", b"x\n", b".", b"\r\n.", b"", b"x\r\n.\r", b"\r"]
     begins = [b".", b"..", b".\r\n", b"\n.", b"\r\n.\r\n", b"x", b"", b".x\r\n.\r\n"]
@@ -101,6 +105,8 @@ def message_of(case):
         return unhex(f[2])
     if f[0] == "wire2":
         return unhex(f[2]) + unhex(f[3])
+    if f[0] == "bigwire":
+        return b"\r"
     return unhex(f[2]) if f[0] == "estep" else b""
 
 
@@ -110,6 +116,8 @@ def nontrivial(case):
 
 
 def shrinkable(case):
+    if case.startswith("bigwire"):
+        return []
     if case.startswith("wire2"):
         return [2, 3]
     return [1] if case.startswith("codec") else [2]
@@ -123,6 +131,9 @@ def distribution(cases):
             d["wire_sync" if f[1] == "s" else "wire_async"] += 1
         elif f[0] == "wire2":
             d["two_messages_one_connection"] = d.get("two_messages_one_connection", 0) + 1
+        elif f[0] == "bigwire":
+            d["megabytes_to_a_late_reader"] = d.get("megabytes_to_a_late_reader", 0) + 1
+            continue
         else:
             d[f[0]] += 1
         m = message_of(c)
